@@ -217,7 +217,7 @@ struct Opts
     Opts& nz () { nozero = true; return *this; }
     Opts& say (const char* s) { note = s; return *this; }
 };
-struct TVStats { long evals = 0; };
+struct TVStats { long evals = 0; long nontrivial = 0; /* inputs not all equal */ };
 // type-erased translator-validation runner for one element type
 typedef std::function<bool (const FnRecord&, unsigned long seed, int n, bool nozero, std::string& detail, TVStats&)> TVFn;
 // run the real instantiation at double on given inputs (replay of a failing input)
